@@ -1737,15 +1737,21 @@ bool QXmppMessage::parseExtension(const QDomElement &element, QXmpp::SceMode sce
         if (checkElement(element, u"html", ns_xhtml_im)) {
             QDomElement bodyElement = element.firstChildElement(u"body"_s);
             if (!bodyElement.isNull() && bodyElement.namespaceURI() == ns_xhtml) {
-                QTextStream stream(&d->xhtml, QIODevice::WriteOnly);
+                // serialize into a fresh string: a second <html/> element must not be written over
+                // the content taken from the first one
+                QString xhtml;
+                QTextStream stream(&xhtml, QIODevice::WriteOnly);
                 bodyElement.save(stream, 0);
 
-                d->xhtml = d->xhtml.mid(d->xhtml.indexOf(u'>') + 1);
-                d->xhtml.replace(
+                xhtml = xhtml.mid(xhtml.indexOf(u'>') + 1);
+                xhtml.replace(
                     u" xmlns=\"http://www.w3.org/1999/xhtml\""_s,
                     QString());
-                d->xhtml.replace(u"</body>"_s, QString());
-                d->xhtml = d->xhtml.trimmed();
+                // strip the end tag of the outer <body/> only: nested ones belong to the content
+                if (const auto end = xhtml.lastIndexOf(u"</body>"_s); end >= 0) {
+                    xhtml.truncate(end);
+                }
+                d->xhtml = xhtml.trimmed();
             }
             return true;
         }
